@@ -11,6 +11,8 @@ import (
 	"os"
 
 	"golang.org/x/sys/unix"
+
+	"github.com/mutagen-io/mutagen/pkg/verif"
 )
 
 // fcntlFlockRetryingOnEINTR is a wrapper around the fcntl system call that
@@ -32,6 +34,8 @@ func (l *Locker) Lock(block bool) error {
 	if l.held {
 		return errors.New("lock already held")
 	}
+
+	verif.Yield("locking.lock")
 
 	// Set up the lock specification.
 	lockSpec := unix.Flock_t{
